@@ -302,7 +302,9 @@ func c13Case(env *Env, tape *sim.Tape) *CaseOut {
 	for _, o := range all {
 		budget += 8 * (o.ref.W + len(o.R.Chunks) + len(o.WriteChunks) + len(o.In)/32 + len(o.ref.Out)/32 + 16)
 	}
+	FlagLockWait = true
 	sv, st := RunTasks(env.T, tape, m, tasks, stick, budget, false)
+	FlagLockWait = false
 
 	var ekey []any
 	for _, o := range all {
